@@ -296,6 +296,41 @@ func checkC19(w *World, r *Report) {
 		}
 	})
 
+	r.Rule("R19.8", "writer state is balanced: in the JSON child encoder every PushName (module-name stack used for RFC 7951 qualified names) is matched by one PopName on every path of the iteration; in the XML encoders every StartElement token is followed by its EndElement", 3)
+	r.guard("R19.8", func() {
+		ep := w.Pkg("data/encoding")
+		push, pop := w.Method("data/encoding", "JSONWriter", "PushName"), w.Method("data/encoding", "JSONWriter", "PopName")
+		fd, _ := w.FuncDecl(w.Method("data/encoding", "JSONWriter", "encodeJsonChildren"))
+		iss, o, c := pairCheck(ep, fd.Body, pairSpec{
+			IsOpen:  func(ce *ast.CallExpr) bool { return calleeOf(ep, ce) == push },
+			IsClose: func(ce *ast.CallExpr) bool { return calleeOf(ep, ce) == pop },
+		})
+		why := ""
+		if len(iss) > 0 {
+			why = iss[0].Why + " at " + w.PosStr(iss[0].Pos)
+		}
+		r.Check(len(iss) == 0 && o > 0 && c > 0, "R19.8", "encodeJsonChildren: PushName/PopName", fd.Pos(), fmt.Sprintf("%d push, %d pop, balanced on every path", o, c), "module-name stack unbalanced ("+why+"): later siblings are written with the wrong (or a missing) module qualifier, so the RFC 7951 text no longer decodes to the same tree")
+		isTok := func(ce *ast.CallExpr, typ string) bool {
+			if f := calleeOf(ep, ce); f == nil || f.FullName() != "(*encoding/xml.Encoder).EncodeToken" || len(ce.Args) != 1 {
+				return false
+			}
+			t := ep.TypesInfo.TypeOf(ce.Args[0])
+			return t != nil && t.String() == "encoding/xml."+typ
+		}
+		for _, fn := range []string{"encodeXmlChildren", "ToXML"} {
+			xfd, _ := w.FuncDecl(w.Func("data/encoding", fn))
+			iss, o, c := pairCheck(ep, xfd.Body, pairSpec{
+				IsOpen:  func(ce *ast.CallExpr) bool { return isTok(ce, "StartElement") },
+				IsClose: func(ce *ast.CallExpr) bool { return isTok(ce, "EndElement") },
+			})
+			why := ""
+			if len(iss) > 0 {
+				why = iss[0].Why + " at " + w.PosStr(iss[0].Pos)
+			}
+			r.Check(len(iss) == 0 && o > 0 && o == c, "R19.8", fn+": StartElement/EndElement", xfd.Pos(), fmt.Sprintf("%d start, %d end, balanced on every path", o, c), "XML element tokens unbalanced ("+why+"): the encoder emits text that is not well-formed or nests siblings")
+		}
+	})
+
 	r.Rule("R19.5", "the JSON writer emits well-formed, faithfully escaped text: every string-like value goes through json.Marshal (no hand-written quoting), and in every arm of the child encoder the '[' / '{' written are closed on every path", 6)
 	r.guard("R19.5", func() {
 		wv := w.Method("data/encoding", "JSONWriter", "writeValue")
